@@ -350,6 +350,12 @@ func leafVals() []val {
 			}
 			p := append(append([]int{}, idx...), i)
 			n := name + "." + f.Name
+			if n == ".Config.Bedrock" || n == ".Connect" {
+				// sections with rules of their own in which an empty string is not a setting but
+				// "unset" (bedrock.ToConfig substitutes the defaults; connect refuses to start):
+				// no listed constraint, and "" -> default on reload is not a change of meaning
+				continue
+			}
 			if f.Type.Kind() == reflect.Struct && !isLeafStruct(f.Type) {
 				walk(f.Type, p, n)
 				continue
@@ -777,7 +783,7 @@ func runCase(r *vrt.R, id caseID, sets ...func(*config.Config)) {
 	case len(errs) == 0 && len(br) > 0:
 		r.Violation("Validate/accepts-broken-constraint/"+br[0], fmt.Sprintf("%v: documented constraint(s) %v broken but Validate reported no error", id, br), id)
 		return
-	case len(errs) > 0 && len(br) == 0 && id.F1 == "leaf" && (strings.HasPrefix(id.V1, ".Config.Bedrock.") || strings.HasPrefix(id.V1, ".Config.Via.") || strings.HasPrefix(id.V1, ".Connect.")):
+	case len(errs) > 0 && len(br) == 0 && id.F1 == "leaf" && strings.HasPrefix(id.V1, ".Config.Via."):
 		// the section has rules of its own that the statement does not list: no verdict oracle
 		r.Class("rejected:by-a-rule-outside-the-listed-constraints")
 		return
